@@ -92,7 +92,8 @@ def file_violations(run, prop, results, verdicts):
     for c in v.get("bad", []):
       p = CLAUSE_PROP.get(c, "C04")
       r = by[tid]
-      if p == prop or (prop == "C04" and c in ("PostBack", "PostFront")):
+      # a lost wake-up is both "queue not empty when no thread has work left" (C04) and "quiescence not reached" (C05)
+      if p == prop or (prop == "C04" and c in ("PostBack", "PostFront")) or (prop == "C05" and c == "LostWake"):
         run.violation("%s" % c, "execution %d (%s, cap %d, %s) rejected: %s; outcome=%s dq=%s dispatched=%s" % (
           tid, r["policy"], r["cfg"]["cap"], json.dumps(r["cfg"]["progs"]), c, r["outcome"], r["dq"], r["dispatched"]),
           {"cfg": r["cfg"], "schedule": r["schedule"], "verdict": v, "outcome": r["outcome"], "errors": r["errors"][:1],
